@@ -94,10 +94,16 @@ func c03fGen(t *rapid.T) c03fScenario {
 		ToDel:   rapid.IntRange(1, 6).Draw(t, "toDel"),
 	}
 	s.MinPool = rapid.IntRange(0, s.MaxPool).Draw(t, "minPool")
-	// IPv4-only or dual stack (the controller has no IPv6-only mode worth the name:
-	// every interface carries a primary IPv4 address)
-	s.V4 = true
-	s.V6 = rapid.IntRange(0, 2).Draw(t, "stack") == 0
+	// IPv4-only, dual stack, or IPv6-only (pods get IPv6 only; every interface still
+	// carries its primary IPv4 address)
+	switch rapid.IntRange(0, 5).Draw(t, "stack") {
+	case 0, 1:
+		s.V4, s.V6 = true, true
+	case 2:
+		s.V4, s.V6 = false, true
+	default:
+		s.V4 = true
+	}
 	for i := 0; i < c03fNPods; i++ {
 		s.Pods = append(s.Pods, c03fPod{
 			Present: rapid.IntRange(0, 9).Draw(t, "present") < 5,
@@ -130,11 +136,11 @@ func c03fGen(t *rapid.T) c03fScenario {
 			return out
 		}
 		lo := 0
-		if len(en.Bound) == 0 {
+		if len(en.Bound) == 0 || !s.V4 {
 			lo = 1 // the primary address
 		}
 		en.Idle4 = idle(lo, "idle4")
-		if len(en.Bound) == 0 {
+		if lo == 1 {
 			en.Idle4[0] = false // a primary address is never marked
 		}
 		if s.V6 {
@@ -272,7 +278,9 @@ func c03fBuild(s c03fScenario) *c03fWorld {
 			}
 		}
 		for bi := range e.Bound {
-			add(false, false, &e.Bound[bi])
+			if s.V4 {
+				add(false, false, &e.Bound[bi])
+			}
 			if s.V6 {
 				add(true, false, &e.Bound[bi])
 			}
@@ -350,6 +358,14 @@ func c03fRun(c *vt.Ctx, s c03fScenario) {
 		fullSyncNodePeriod: time.Hour, gcPeriod: 0, tracer: noop.NewTracerProvider().Tracer(""), eniBatchSize: 5,
 	}
 	c.Label("entry:" + s.Entry)
+	switch {
+	case s.V4 && s.V6:
+		c.Label("stack:dual")
+	case s.V6:
+		c.Label("stack:ipv6-only")
+	default:
+		c.Label("stack:ipv4")
+	}
 
 	// 1. latest-timestamp-wins against the reference, on every generated status map
 	// (the NodeRuntime read back from the API server when there is one)
